@@ -6,3 +6,10 @@ impl<T> Receiver<T> {
 //@fn rodbus/src/channel.rs | Receiver<T>::recv | tags=C10
 //@|    ensures r matches Ok(v) ==> tokio::sync::mpsc::queue_inv(v),
 }
+impl<T> vstd::std_specs::convert::FromSpecImpl<tokio::sync::mpsc::Receiver<T>> for Receiver<T> {
+    open spec fn obeys_from_spec() -> bool { true }
+    open spec fn from_spec(value: tokio::sync::mpsc::Receiver<T>) -> Self { Receiver(value) }
+}
+impl<T> From<tokio::sync::mpsc::Receiver<T>> for Receiver<T> {
+//@fn rodbus/src/channel.rs | From<tokio::sync::mpsc::Receiver<T>> for Receiver<T>::from | tags=C10
+}
